@@ -8,6 +8,7 @@ IsDir bit for the watch path, and the user/group databases.
 import LA.Base.Num
 import LA.Model.MsgType
 import LA.Model.Tables
+import LA.Gen.RuleTables
 import LA.Model.Auparse
 
 namespace LA.Rule
